@@ -317,6 +317,7 @@ def match_seq(patterns: List[str], stmts: List[ast.stmt], b: Optional[Bindings] 
 def rebinds_of_params(func: ast.FunctionDef, params: List[str]) -> List[Tuple[str, str, str]]:
     """(param, statement text, verdict) for every re-binding of a forwarded parameter inside a facade.
     verdict 'default-if-none'  : `if p is None [or len(p) == 0]: p = <default>`  (documented defaulting, harmless)
+            'one-rank-default' : the default is computed from a single rank's trace (get_trace(r) / traces[r]) although the call serves several ranks
             'suspicious'       : any other re-binding (e.g. `p = p or default`, which replaces legitimate falsy values such as 0)"""
     out = []
     for n in walk_no_nested(func):
@@ -339,6 +340,23 @@ def rebinds_of_params(func: ast.FunctionDef, params: List[str]) -> List[Tuple[st
                 if all(match(f"{t.id} is None", x) is not None or match(f"len({t.id}) == 0", x) is not None or match(f"{t.id} == []", x) is not None or match(f"{t.id} == ''", x) is not None for x in tests) \
                         and any(match(f"{t.id} is None", x) is not None or match(f"{t.id} == ''", x) is not None for x in tests):
                     verdict = "default-if-none"
+                    # ... unless the default is read out of ONE rank's trace (and then handed to every requested rank)
+                    feeds = [n.value] if getattr(n, "value", None) is not None else []
+                    local = {}
+                    for t2, v2, s2 in assignments(cur):
+                        if isinstance(t2, ast.Name) and s2 is not n:
+                            local.setdefault(t2.id, []).append(v2)
+                    seen_names = set()
+                    work = list(feeds)
+                    while work:
+                        e = work.pop()
+                        for x in ast.walk(e):
+                            if isinstance(x, ast.Name) and x.id in local and x.id not in seen_names:
+                                seen_names.add(x.id)
+                                work.extend(local[x.id])
+                            if (isinstance(x, ast.Call) and isinstance(x.func, ast.Attribute) and x.func.attr == "get_trace") or \
+                                    (isinstance(x, ast.Subscript) and isinstance(x.value, ast.Attribute) and x.value.attr == "traces"):
+                                verdict = "one-rank-default"
             out.append((t.id, " ".join(ast.unparse(n).split())[:100], verdict))
     return out
 
